@@ -8,7 +8,7 @@ use crate::report::{par_run, Report};
 use crate::rng::Rng;
 use serde_json::json;
 
-pub const RULE: &str = "All 22 indicators (multipliers incl. MIN_POSITIVE, 5e-324, f64::MAX, NaN) x periods {1,2,7,64,512} (+ sampled 1..=512) x stream shapes {strictly increasing, strictly decreasing, alternating, flat, random walk, uniform random, one NaN then non-increasing, +-inf then flat, finite values of magnitude 1e-300..1e300, a feed of recurring bad ticks (crossed bars, non-finite fields, both at once), all zeros, halts of doubling length} x scalar/bar feed: after a warm-up of n+2 inputs the thread-local live-heap counter of the harness's counting GlobalAlloc is read, N further inputs (10^5 quick - 1.1*10^6 for the period-7 random-walk runs - and 10^6 thorough) generated in place (no harness allocation in between) are fed, and it is read again: growth must be <= 256 + 64*sum(periods) bytes (allocation count in steady state reported). bincode::serialized_size is sampled at every step of the first 3n+10 inputs and at 64 checkpoints of the long run: always <= the same bound (constancy after the first input reported). A second phase repeats, on one instance per (indicator, period in {1,7,64,65,200,512}), R cycles of {feed n+5 inputs, reset} / {clone, drop} / {serialize, deserialize, swap}: live heap after the cycles must be within the same bound of live heap after the first cycle (a per-reset, per-clone or per-restore leak grows linearly). Non-trivial: every run (stream far longer than the window); distinct by construction (indicator, period, shape, feed).";
+pub const RULE: &str = "All 22 indicators (multipliers incl. MIN_POSITIVE, 5e-324, f64::MAX, NaN) x periods {1,2,7,64,512} (+ sampled 1..=512) x stream shapes {strictly increasing, strictly decreasing, alternating, flat, random walk, uniform random, one NaN then non-increasing, +-inf then flat, finite values of magnitude 1e-300..1e300, a feed of recurring bad ticks (crossed bars, non-finite fields, both at once), all zeros, halts of doubling length} x scalar/bar feed: after a warm-up of n+2 inputs the thread-local live-heap counter of the harness's counting GlobalAlloc is read, N further inputs (10^5 quick - 1.1*10^6 for the period-7 random-walk runs - and 10^6 thorough) generated in place (no harness allocation in between) are fed, and it is read again: growth must be <= 256 + 64*sum(periods) bytes (allocation count in steady state reported). bincode::serialized_size is sampled at every step of the first 3n+10 inputs and at 64 checkpoints of the long run: always <= the same bound (constancy after the first input reported). A second phase repeats, on one instance per (indicator, period in {1,7,64,65,200,512}), R cycles of {feed n+5 inputs, reset} / {clone, drop} / {serialize, deserialize, swap} / {clone_from from a checkpoint instance}: live heap after the cycles must be within the same bound of live heap after the first cycle (a per-reset, per-clone or per-restore leak grows linearly). Non-trivial: every run (stream far longer than the window); distinct by construction (indicator, period, shape, feed).";
 
 #[derive(Clone, Copy, Debug, PartialEq)]
 pub enum Shape {
@@ -231,12 +231,13 @@ pub fn run_one(rep: &mut Report, p: &Params, shape: Shape, bars: bool, steps: us
 pub fn run_cycles(rep: &mut Report, p: &Params, bars: bool, cycles: usize, seed: u64) {
     // mixed cycles, then each kind on its own (a per-kind leak or a window that grows with every clone /
     // restore is diluted when the kinds alternate)
-    for mode in 0..4usize {
+    for mode in 0..5usize {
         run_cycles_mode(rep, p, bars, if mode == 0 { cycles } else { cycles / 3 + 8 }, seed ^ mode as u64, mode);
     }
 }
 
-/// mode 0: reset / clone / serde alternate; 1: reset only; 2: clone only; 3: serde only. The number of
+/// mode 0: reset / clone / serde alternate; 1: reset only; 2: clone only; 3: serde only; 4: rewind — the working
+/// instance is overwritten with clone_from from a checkpoint instance taken after the first feed. The number of
 /// inputs between two cycle ends follows (n+5)*2^(k mod 7): a structure that doubles whenever it is
 /// copied needs ever longer feeds to keep growing.
 pub fn run_cycles_mode(rep: &mut Report, p: &Params, bars: bool, cycles: usize, seed: u64, mode: usize) {
@@ -244,13 +245,23 @@ pub fn run_cycles_mode(rep: &mut Report, p: &Params, bars: bool, cycles: usize, 
     let mut inst = Inst::new(p);
     let n = p.max_period();
     let b = bound(p);
-    let one_cycle = |inst: &mut Inst, g: &mut ShapeGen, k: usize| -> bool {
+    let mut checkpoint: Option<Inst> = None;
+    let mut one_cycle = |inst: &mut Inst, g: &mut ShapeGen, k: usize| -> bool {
         let feed = if mode == 0 { n + 5 } else { (n.min(64) + 5) << (k % 7) };
         for _ in 0..feed {
             let x = g.next(bars);
             if inst.feed(&x).is_err() {
                 return false;
             }
+        }
+        if mode == 4 {
+            if checkpoint.is_none() {
+                checkpoint = inst.try_clone().ok();
+            }
+            return match checkpoint.as_ref() {
+                Some(cp) => inst.assign_from(cp).is_ok(),
+                None => false,
+            };
         }
         match if mode == 0 { k % 3 } else { mode - 1 } {
             0 => inst.reset().is_ok(),
@@ -281,7 +292,7 @@ pub fn run_cycles_mode(rep: &mut Report, p: &Params, bars: bool, cycles: usize, 
     rep.evaluations += 1;
     rep.ratio(&format!("c18.cycle_growth.{}", p.kind.name()), growth.max(0) as f64 / b as f64);
     if growth > b as i64 {
-        fail(rep, p, "heap_growth_per_cycle", format!("{} (bars={}): live heap grew by {} bytes over {} {} cycles (bound {})", p.label(), bars, growth, cycles, ["reset/clone/serde", "reset", "clone", "serde"][mode], b),
+        fail(rep, p, "heap_growth_per_cycle", format!("{} (bars={}): live heap grew by {} bytes over {} {} cycles (bound {})", p.label(), bars, growth, cycles, ["reset/clone/serde", "reset", "clone", "serde", "clone_from-rewind"][mode], b),
              json!({"params": p.to_json(), "cycles": cycles, "bars": bars, "seed": seed.to_string()}));
         return;
     }
